@@ -1128,7 +1128,16 @@ func (fx *fnExec) runStoreHooks(x *ssa.Store, ad Ad, where string) {
 		target = ad.Heap + pathSuffix(ad.Path)
 	}
 	for _, h := range fx.ctr.Hooks {
-		if h.Event != "store" || !matchTarget(h.Target, target) {
+		if h.Event != "store" {
+			continue
+		}
+		if m := siteRe.FindStringSubmatch(h.Target); m != nil {
+			// "var #k": the k-th store to var in source order
+			k, _ := strconv.Atoi(m[2])
+			if !matchTarget(m[1], target) || fx.storeOrdinal(x, target) != k {
+				continue
+			}
+		} else if !matchTarget(h.Target, target) {
 			continue
 		}
 		ne := fx.curEnv()
@@ -1308,6 +1317,53 @@ func (fx *fnExec) callOrdinal(c *ssa.CallCommon, name string) int {
 	sort.Slice(sites, func(i, j int) bool { return sites[i].pos < sites[j].pos })
 	for i, s := range sites {
 		if s.c == c {
+			return i + 1
+		}
+	}
+	return 0
+}
+
+func (fx *fnExec) storeTarget(x *ssa.Store) string {
+	// static name of the stored-to variable (cells only)
+	cur := x.Addr
+	suffix := ""
+	for {
+		switch y := cur.(type) {
+		case *ssa.FieldAddr:
+			st := y.X.Type().Underlying().(*types.Pointer).Elem().Underlying().(*types.Struct)
+			suffix = "." + st.Field(y.Field).Name() + suffix
+			cur = y.X
+			continue
+		}
+		break
+	}
+	switch r := cur.(type) {
+	case *ssa.Alloc:
+		return r.Comment + suffix
+	case *ssa.FreeVar:
+		return r.Name() + suffix
+	case *ssa.Global:
+		return r.Name() + suffix
+	}
+	return ""
+}
+
+func (fx *fnExec) storeOrdinal(x *ssa.Store, target string) int {
+	type site struct {
+		pos token.Pos
+		s   *ssa.Store
+	}
+	var sites []site
+	for _, b := range fx.fn.Blocks {
+		for _, in := range b.Instrs {
+			if st, ok := in.(*ssa.Store); ok && fx.storeTarget(st) == target {
+				sites = append(sites, site{st.Pos(), st})
+			}
+		}
+	}
+	sort.SliceStable(sites, func(i, j int) bool { return sites[i].pos < sites[j].pos })
+	for i, s := range sites {
+		if s.s == x {
 			return i + 1
 		}
 	}
